@@ -4,6 +4,7 @@ from __future__ import annotations
 import ast
 import re
 
+from .. import efg as _efg
 from ..pyfacts import AnalysisError, src, parent
 from ..genfacts import GenFacts, GEN, STDLIB
 from ..asmtext import AsmText, parse_offset, STORES, STORES_OFF
@@ -78,7 +79,7 @@ def run(repo, chk):
                        f'{fname}::accessor', f'slot accessor must be [fp - cur.offset] in state: {rv[:120]}', GEN)
     for p in gf.paths('create_new_stack_array'):
         ev = p.events
-        conds = {e.text: e.truth for e in ev if e.kind == 'cond'}
+        conds = _efg.Conds(ev)
         a = [i for i, e in enumerate(ev) if e.kind == 'assign' and e.target == 'self.stack']
         u = [i for i, e in enumerate(ev) if e.kind == 'call' and e.func == '.update' and src(e.recv) == 'self.checkpoints'
              and [src(x) for x in e.args] == ['self.stack.static_size']]
@@ -380,7 +381,7 @@ def _scale(repo, chk, gf):
             raise AnalysisError(f'cannot tabulate array_size/frame_size: {type(e).__name__}: {e}')
     # emitted scaling
     for p, ev in gf.inlined('get_array_size'):
-        conds = {e.text: e.truth for e in ev if e.kind == 'cond'}
+        conds = _efg.Conds(ev)
         em = [e.short() for e in ev if e.kind == 'emit']
         if conds.get('isinstance(length, asm.IntLiteral)'):
             continue
@@ -395,7 +396,7 @@ def _scale(repo, chk, gf):
         for p, ev in gf.inlined(fname):
             if p.outcome == 'raise':
                 continue
-            conds = {e.text: e.truth for e in ev if e.kind == 'cond'}
+            conds = _efg.Conds(ev)
             em = [e.short() for e in ev if e.kind == 'emit']
             text = ' ; '.join(em)
             if any('DataType.STRING' in t and v for t, v in conds.items()):
@@ -437,7 +438,7 @@ def _scale(repo, chk, gf):
         arm = F.arm_of(ev, len(ev) - 1)
         if not arm.startswith('ArrayLiteral') or p.outcome == 'raise':
             continue
-        conds = {e.text: e.truth for e in ev if e.kind == 'cond'}
+        conds = _efg.Conds(ev)
         if conds.get('el_type == DataType.BOOL') is False:
             st = [src(e.value) for e in ev if e.kind == 'assign' and e.target == 'stride']
             so = [src(e.value) for e in ev if e.kind == 'assign' and e.target == 'so_instr']
